@@ -528,6 +528,13 @@ class Checker:
             sh.seen(case, nontriv)
             sh.count("obs:" + ob.keykind)
             o = ev.get("o")
+            if o == "panic":
+                # the property gives every observation of a finite or infinite stream a value or an ordinary error:
+                # an internal panic (an index computed without the guard another method has) is neither
+                pm = (ev.get("panic") or {}).get("msg", "")
+                self.violation("C11|%s|%s|panic" % (ob.keykind, fam), "%s panicked inside the interpreter: %s" % (case, pm[:100]),
+                               dict(replay, failing_statement=stmt))
+                return
             if o in INCONC:
                 sh.inconc(o, case)
                 if o in ("crash", "timeout", "skipped", "lost", "panic"):
